@@ -615,7 +615,7 @@ package prover
 //@              w.toks[o + 10] == tok.cs(ps.ConstraintSystem.val)
 
 //@ func (*ProvingSystem) UnsafeReadFrom
-//@   property C11 C15
+//@   property C11 C15 C19
 //@   modifies ps, r.pos
 //@   let p = old(r.pos)
 //@   ensures result1 == nil ==> p + 11 <= len(r.toks) && r.pos == p + 11
@@ -627,7 +627,7 @@ package prover
 //@   lemmas beIntFrom_shift2
 
 //@ func ReadSystemFromFile
-//@   property C11 C15
+//@   property C11 C15 C19
 //@   ensures err == nil ==> !isnil(ps)
 //@   ensures err == nil ==> 11 <= os.fileLen(path)
 //@   ensures err == nil ==> deref(ps).TreeDepth == bytes.beIntFrom(os.fileToks(path), 0, 4) && deref(ps).BatchSize == bytes.beIntFrom(os.fileToks(path), 4, 8)
